@@ -41,6 +41,8 @@ def gen_workload(rng, profile="c06"):
     pdep = rng.choice([0.15, 0.3, 0.5, 0.8])
     pmark = rng.choice([0.0, 0.0, 0.1, 0.25])
     pcopy = rng.choice([0.0, 0.1, 0.2, 0.35]) if profile != "c04" else rng.choice([0.0, 0.15, 0.3])
+    if profile == "c07":
+        pfail, pdep = rng.choice([0.2, 0.35, 0.5]), rng.choice([0.4, 0.6, 0.8])
     jobs = []
     for j in range(n):
         if j > 0 and rng.random() < pcopy:
@@ -174,6 +176,54 @@ def oracle_c04(w, trace, report):
                 elif not collected:
                     key += ":" + "+".join(how)
                 report(key, f"job {j} launched while upstream job {k} is {stt} (embedded as {how})")
+
+
+def oracle_c04_deps(w, trace, report):
+    """the job dependencies registered by submit() = the upstream tasks embedded in the parameters"""
+    for j, spec in enumerate(w["jobs"]):
+        deps = trace["deps"][j]
+        if deps is None:
+            continue
+        got = sorted({d[1] for d in deps if d[0] == "job"})
+        # the job object an upstream submission stands for (a duplicate stands for the registered job)
+        want = upstream(w, trace, j)
+        if got != want:
+            missing = [k for k in want if k not in got]
+            extra = [k for k in got if k not in want]
+            hows = sorted({h for (kk, h) in spec["embed"] if resolve(trace, kk) in missing})
+            dupobj = any(h.endswith("_obj") and trace["dup"][kk] is not None for (kk, h) in spec["embed"]
+                         if resolve(trace, kk) in missing)
+            if missing:
+                key = "C04:dependency-missing:" + ("duplicate-object" if dupobj else "+".join(hows))
+                report(key, f"job {j}: upstream {missing} (embedded as {hows}) not among the registered dependencies {got}")
+            if extra:
+                report("C04:dependency-extra", f"job {j}: registered dependencies {extra} are not upstream tasks of its parameters")
+
+
+def g_value(v):
+    if v[0] == "atom":
+        return "VAtom"
+    if v[0] == "ref":
+        return f"(VRef {v[1]})"
+    if v[0] == "list":
+        return "(VList " + glist(g_value(x) for x in v[1]) + ")"
+    if v[0] == "dict":
+        return "(VDict " + glist(f"({g_value(k)}, {g_value(x)})" for (k, x) in v[1]) + ")"
+    raise ValueError(v)
+
+
+def g_dcase(heapdump, observed):
+    nodes = []
+    for n in heapdump["nodes"]:
+        nodes.append(f"{{| n_fields := {glist(g_value(v) for v in n['fields'])}; n_pre := {glist(map(str, n['pre']))}; "
+                     f"n_init := {glist(map(str, n['init']))}; n_task := {gopt(n['task'], str)}; "
+                     f"n_jobof := {gopt(n['jobof'], str)}; n_loaded := {gbool(n['loaded'])}; n_sub := None |}}")
+    return (f"{{| d_heap := {glist(nodes)}; d_root := 0; d_explicit := {glist(map(str, heapdump['explicit']))}; "
+            f"d_observed := {glist(map(str, observed))} |}}")
+
+
+DEPS_HEADER = ("From Coq Require Import List Bool.\nFrom XV Require Import model.Deps corr.DepsCorr.\n"
+               "Import ListNotations.\n")
 
 
 def effective_failed_ancestor(w, trace, res, j, memo):
@@ -345,6 +395,8 @@ def run_sched_check(c, profile, oracles, n_quick, n_thorough, golden_name, rule,
     scratch = str(c.scratch())
     for w in cases:
         w["scratch"] = scratch
+        if profile == "c04":
+            w["dump_heaps"] = True
     traces = []
     B = 400
     for i in range(0, len(cases), B):
@@ -356,6 +408,7 @@ def run_sched_check(c, profile, oracles, n_quick, n_thorough, golden_name, rule,
     for w, t in zip(cases, traces):
         c.evaluations += 1
         w.pop("scratch", None)
+        w.pop("dump_heaps", None)
         if t.get("error"):
             if "timeout" in t["error"] or "stuck" in t["error"]:
                 c.violation("harness:run-did-not-complete", "a controlled run did not complete: " + t["error"][:200],
@@ -406,6 +459,24 @@ def run_sched_check(c, profile, oracles, n_quick, n_thorough, golden_name, rule,
             c.count("not-rendered")
     c.samples = [sample(w, t) for (w, t) in render[3:6]]
     bad = c.corr_shards("trace", CORR_HEADER, render, lambda p: g_case(p[0], p[1], fx), "check_case", shard=100)
+    if profile == "c04":
+        dcases = []
+        for w, t in zip(cases, traces):
+            if t.get("error"):
+                continue
+            for j, hd in enumerate(t.get("heaps") or []):
+                if hd is None or t["deps"][j] is None:
+                    continue
+                if any(v[0] == "other" for n in hd["nodes"] for v in n["fields"]) or any(
+                        n["jobof"] == -1 for n in hd["nodes"]) or -1 in hd["explicit"]:
+                    c.count("heap-not-rendered")
+                    continue
+                obs = sorted({d[1] for d in t["deps"][j] if d[0] == "job"})
+                dcases.append((hd, obs, w, j))
+                c.count(f"heap-nodes={min(len(hd['nodes']), 12)}")
+        badd = c.corr_shards("deps", DEPS_HEADER, dcases, lambda p: g_dcase(p[0], p[1]), "check_deps", shard=400)
+        c.extra["disagreeing_dependency_sets"] = [dict(job=dcases[i][3], observed=dcases[i][1], heap=dcases[i][0],
+                                                       workload=dcases[i][2]) for i in badd[:3]]
     c.extra["disagreeing_cases"] = [sample(*render[i]) for i in bad[:3]]
     c.extra["disagreeing_workloads"] = [dict(render[i][0], schedule=[s["act"] for s in render[i][1]["steps"]]) for i in bad[:3]]
     c.level_assumptions = [
